@@ -857,3 +857,38 @@ def hostile_programs(rng, bw, n):
             a.op("STOP")
         out.append(a.assemble() or b"\x00")
     return out
+
+
+def evidence_programs(rng, bw, n):
+    """programs whose slots receive 2-5 pieces of typing evidence of different kinds (address mask, boolean
+    negation, signed / unsigned arithmetic, array-like use of the same slot, copies between slots)"""
+    out = []
+    for _ in range(n):
+        a = Asm()
+        slots = rng.sample(range(0, 6), rng.randrange(1, 4))
+        for s in slots:
+            for _ in range(rng.randrange(2, 6)):
+                k = rng.randrange(10)
+                if k == 0:      # address-masked store
+                    a.op("CALLER").push(ADDR_MASK).op("AND").push(s).op("SSTORE")
+                elif k == 1:    # boolean
+                    a.push(4).op("CALLDATALOAD").op("ISZERO").push(s).op("SSTORE")
+                elif k == 2:    # signed arithmetic on the loaded value
+                    a.push(s).op("SLOAD").push(3).op("SDIV").op("POP")
+                elif k == 3:    # unsigned arithmetic
+                    a.push(s).op("SLOAD").push(1).op("ADD").push(s).op("SSTORE")
+                elif k == 4:    # the slot as a dynamic array: length + element access
+                    a.push(s).push(0).op("MSTORE").push(0x20).push(0).op("SHA3").push(4).op("CALLDATALOAD").op("ADD").op("SLOAD").op("POP")
+                elif k == 5:    # the slot as a mapping
+                    a.push(s).push(0x20).op("MSTORE").op("CALLER").push(0).op("MSTORE").push(0x40).push(0).op("SHA3").op("SLOAD").op("POP")
+                elif k == 6:    # copy from another slot (equality)
+                    a.push(rng.choice(slots)).op("SLOAD").push(s).op("SSTORE")
+                elif k == 7:    # byte-sized field
+                    a.push(s).op("SLOAD").push(0xff).op("AND").op("POP")
+                elif k == 8:    # selector-sized
+                    a.push(s).op("SLOAD").push(0xe0).op("SHR").push(0xffffffff).op("AND").op("POP")
+                else:           # comparison
+                    a.push(s).op("SLOAD").push(rng.choice(bw)).op(rng.choice(["LT", "SLT", "EQ"])).op("POP")
+        a.op("STOP")
+        out.append(a.assemble())
+    return out
